@@ -36,6 +36,12 @@ GroupOK(e) ==
                 cs == [k \in 1..Len(idx) |-> e.vals[idx[k]]] IN
             /\ e.res[j].cnt = Cardinality(mem)
             /\ e.res[j].cntv = CountNN(cs)
+            \* LISTAGG(id) WITHIN GROUP (ORDER BY id): exactly the rows of the bucket (id = position of the row in the table)
+            /\ e.res[j].ids = idx
+            \* user-defined aggregate functions receive every value of the bucket, NULLs included
+            /\ e.res[j].ucnt = Cardinality(mem) /\ e.res[j].unn = CountNN(cs)
+            /\ e.res[j].hasmed = (NumCells(cs) # <<>>)
+            /\ (e.res[j].hasmed => e.res[j].med4 = Median4(NumCells(cs)))
             \* DISTINCT applies to whatever the argument is: a constant has one distinct value, a column of numbers as many as it has different numbers
             /\ e.res[j].cnt1 = 1
             /\ (~e.res[j].mixed => e.res[j].cntd = Cardinality({NumCells(cs)[i].f2 : i \in 1..Len(NumCells(cs))}))
